@@ -306,6 +306,39 @@ func main() {
 		e := ref.ZnMul(u1, sv)
 		add(vcase{q, nil, ref.B32(e), r, sv, "chosen u2 on a GLV rounding boundary", false})
 	}
+	// (b'') wrapped second candidate: x' = r + n - p (what a field addition of r and n gives when r + n >= p).
+	// If x' is an x-coordinate, the key Q' = r^-1 (s R' - e G) built from R' = lift(x') "verifies" only for an
+	// implementation that forgets that x' is not congruent to r mod n. Must be rejected for ids 2 and 3.
+	{
+		nw := 0
+		for _, d := range keys[:3] {
+			for di, dg := range baseDigests[:4] {
+				r, s, _, ok := ref.ECDSASignWithNonce(d, dg, nonces[(di+1)%len(nonces)])
+				if !ok {
+					continue
+				}
+				xw := new(big.Int).Sub(new(big.Int).Add(r, ref.N), ref.P)
+				if xw.Sign() < 0 {
+					continue
+				}
+				for odd := uint(0); odd < 2; odd++ {
+					rw, okw := ref.LiftX(xw, odd)
+					if !okw {
+						continue
+					}
+					e, _ := ref.DigestToE(dg)
+					ri := new(big.Int).ModInverse(r, ref.N)
+					qw := rw.Mul(ref.ZnMul(s, ri)).Sub(ref.BaseMul(ref.ZnMul(ref.ModN(e), ri)))
+					if qw.Inf {
+						continue
+					}
+					nw++
+					add(vcase{qw, nil, dg, r, s, "key built from the wrapped point x' = r+n-p", true})
+				}
+			}
+		}
+		R.Bound("wrapped_second_candidate_cases", nw)
+	}
 	// (c) R = infinity: e = -r d  (u1 G + u2 Q = (e + r d)/s G = inf)
 	for _, d := range keys {
 		q := ref.BaseMul(d)
